@@ -142,6 +142,7 @@ func runStepSweep(c *Ctx, prop string) {
 			// memory type handed to the CPU directly
 			sc.PreHALT = k%16 == 9
 			sc.NoHandlers = k%4 == 3
+			sc.PendingRefused = k%16 == 6
 			rig.Direct = 0
 			if k%8 == 5 {
 				rig.Direct = 1 + (k/8)%2
@@ -271,7 +272,7 @@ func runStepSweep(c *Ctx, prop string) {
 	}
 
 	// nil-IO pass: the port instructions with no device attached (IN reads 0)
-	if prop == "C01" {
+	{
 		var nilEv int64
 		rig := NewStepRig(uint64(c.Seed) ^ 0x10)
 		rig.NilIO = true
@@ -284,7 +285,7 @@ func runStepSweep(c *Ctx, prop string) {
 				if o.Bad&aspects != 0 {
 					w := rig.Witness(enc, &sc, &o)
 					w["nil_io"] = true
-					c.R.Violation(fmt.Sprintf("C01/nil-io/%s/%s", enc.String(), BadString(o.Bad&aspects)), w)
+					c.R.Violation(fmt.Sprintf("%s/nil-io/%s/%s", prop, enc.String(), BadString(o.Bad&aspects)), w)
 				}
 			}
 		}
@@ -313,9 +314,9 @@ func runStepSweep(c *Ctx, prop string) {
 	}
 	switch prop {
 	case "C01":
-		c.R.Set("rule", "every implemented encoding (930, all seven decode tables) x n boundary-biased pre-states (F and displacement cycled through all 256 values, PC straddling FFFF in ~1/8, pointers at/near 0000/FFFF/PC/SP), pseudo-random memory and device bytes, the halted indication already true in 1/16 of cases, no RETN/RETI handler registered in 1/4 of cases, 1/8 of cases also executed on z80.DumbMemory / a fully populated z80.MapMemory handed to the CPU directly (outcome must not depend on the memory's type); one emulator Step vs one reference-model Step; plus chains of 48 random implemented instructions executed by ONE CPU object on an instruction tape (post-state of a Step = pre-state of the next) to expose state leaking between consecutive operations (every ~6th Step continues on a by-value copy of the CPU struct while the old struct is scribbled over); compared: all registers, F under the tolerance mask, I, IFF1/2, IM, HALT, full memory image, bytes sent to ports. A case is non-trivial when the Step changed a register other than PC/R, wrote memory, or touched a port or data byte; distinct = distinct (encoding, case index, pre-state, device seed) hashes among the non-trivial ones (sampled 1/7 beyond the first 4096 per encoding, exact set capped at 6M: a lower bound)")
+		c.R.Set("rule", "every implemented encoding (930, all seven decode tables) x n boundary-biased pre-states (F and displacement cycled through all 256 values, PC straddling FFFF in ~1/8, pointers at/near 0000/FFFF/PC/SP), pseudo-random memory and device bytes, the halted indication already true in 1/16 of cases, no RETN/RETI handler registered in 1/4 of cases, a refused maskable request pending (IFF1 clear) in 1/16 of cases, 1/8 of cases also executed on z80.DumbMemory / a fully populated z80.MapMemory handed to the CPU directly (outcome must not depend on the memory's type); one emulator Step vs one reference-model Step; plus chains of 48 random implemented instructions executed by ONE CPU object on an instruction tape (post-state of a Step = pre-state of the next) to expose state leaking between consecutive operations (every ~6th Step continues on a by-value copy of the CPU struct while the old struct is scribbled over); compared: all registers, F under the tolerance mask, I, IFF1/2, IM, HALT, full memory image, bytes sent to ports. A case is non-trivial when the Step changed a register other than PC/R, wrote memory, or touched a port or data byte; distinct = distinct (encoding, case index, pre-state, device seed) hashes among the non-trivial ones (sampled 1/7 beyond the first 4096 per encoding, exact set capped at 6M: a lower bound)")
 	case "C05":
-		c.R.Set("rule", "same workload as C01; compared per Step: multiset of memory reads (addr,value), multiset of memory writes (addr,value) and the ordered port log (direction, port, value) of the emulator against the reference model's bus log; non-trivial/distinct as in C01")
+		c.R.Set("rule", "same workload as C01 (incl. the pass with no I/O device attached: memory traffic must be unchanged); compared per Step: multiset of memory reads (addr,value), multiset of memory writes (addr,value) and the ordered port log (direction, port, value) of the emulator against the reference model's bus log; non-trivial/distinct as in C01")
 	}
 	c.R.Assume("reference model ref/ (validated against the 134 hardware CRCs of zexdoc/zexall on every run) encodes the Z80 semantics; tolerances of DESIGN §2.3 (SCF/CCF and BIT-on-memory bits 3/5 masked, block-I/O flags documented-or-silicon, RETI IFF1)")
 	c.R.Assume("sampled, not exhaustive: the pre-state space is ~2^230 per encoding")
@@ -396,6 +397,7 @@ func replayStep(c *Ctx, prop string) {
 	sc := StepCase{Pre: pre, Bytes: bs, IOSeed: uint64(is)}
 	sc.PreHALT, _ = w["pre_halt"].(bool)
 	sc.NoHandlers, _ = w["no_handlers"].(bool)
+	sc.PendingRefused, _ = w["pending_refused"].(bool)
 	if d, ok := w["direct"].(float64); ok {
 		rig.Direct = int(d)
 	}
